@@ -7,6 +7,8 @@ import (
 
 	"github.com/itchio/lake"
 	"github.com/itchio/lake/tlc"
+	"github.com/itchio/savior/seeksource"
+	"github.com/itchio/wharf/pwr/patcher"
 	"verif/lib"
 )
 
@@ -174,7 +176,14 @@ func c01Run(c lib.Case, env *lib.Env) lib.Result {
 			}
 		}
 		out := filepath.Join(env.Scratch, fmt.Sprintf("out%d", ci))
-		err, panicked, stack = lib.Guard(func() error { return lib.ApplyFresh(dr.Patch, oldDir, out) })
+		err, panicked, stack = lib.Guard(func() error {
+			if ci == 1 {
+				// the library's one-call entry point
+				res.Add("applies_through_patchfresh", 1)
+				return patcher.PatchFresh(patcher.PatchFreshParams{PatchReader: seeksource.FromBytes(dr.Patch), TargetDir: oldDir, OutputDir: out, Consumer: lib.Quiet()})
+			}
+			return lib.ApplyFresh(dr.Patch, oldDir, out)
+		})
 		if panicked {
 			res.Violate("apply-panic", err.Error(), stack)
 			continue
